@@ -23,9 +23,10 @@ TRUSTED = [
     'CPython: sorted() stability, try/finally, generator-based context managers',
 ]
 ASSUMPTIONS = [
-    'one Parameterized instance, Integer parameters (equality = integer equality; the Comparator is modelled separately in C03), value watchers in args mode',
-    'Event parameters, slot (what != value) watchers, class-level watchers, async callbacks and Skip are outside the model',
-    'callback cascades are acyclic (a body assigns only parameters of lower index than those its watchers watch)',
+    'one Parameterized object (an instance or the class itself), Integer and Event parameters (equality = integer equality; the Comparator is modelled separately in C03); value watchers in args and kwargs mode, watchers of the Parameter attributes precedence/step',
+    'several objects at once (a callback assigning to another object), async callbacks, Skip, depends() and references are outside this model (C06-C10 have their own)',
+    'callback cascades are acyclic (a body assigns only parameters of lower index than those its watchers watch); callbacks may (un)register watchers, the watchers they register have empty callbacks',
+    'a Watcher object is identified by the order of its creation (uid): the model and the harness both count registrations',
 ]
 RULE = ('directed programs (each statement kind, precedence ties, queued callbacks, nested assignments, unwatch) + random programs: '
         '1-4 parameters, 1-5 watchers (random subsets, onlychanged, queued, precedence with ties), callback bodies of depth <=2 that '
@@ -163,6 +164,9 @@ def run_impl(case):
         except Exception as e:
             return {'crash': f'{type(e).__name__}: {e}'}
     return D.run_impl(case)
+
+
+crash_excused = D.crash_excused
 
 
 def compare(impl, model):
